@@ -10,7 +10,9 @@ RULE = ("V: every abstract TBS shape of CertCodec.tla (version x curve x CA/host
         "unsafe-network list x key present) is one TLC state on which TLC checks Signed => Decode(Encode_e) = id and Decoded => Shape for "
         "the model; each is concretised and given to the real Sign; if it signs, its standard, PEM and handshake encodings are decoded "
         "by the real decoders and compared field by field, by fingerprint and by re-encoding; each is also hand-encoded (own DER/protobuf "
-        "writer) and given to the decoders: what a decoder accepts Sign must accept; distinct = shapes. "
+        "writer) and given to the decoders: what a decoder accepts Sign must accept; distinct = shapes. The size rule is swept byte by "
+        "byte: for both curves and CA/host one vector per exact standard-encoding length MaxCertificateSize-2..+16 (thorough -6..+40), "
+        "filler group tuned to the byte, fixed-length signatures. "
         "T: seeded random TBS certificates (names to 650 bytes, up to 40 networks, 30 unsafe networks, 30 groups, validity +-2^45 s with "
         "nanoseconds, one unusual feature in a third of them) through the same two checks, projected to the abstract shape and "
         "validated by TLC against Rel3/Shape; traces = random certificates")
@@ -27,7 +29,11 @@ ASSUMPTIONS = [
     "the standard encoding is decoded through a PEM block built by the harness, the PEM encoding through MarshalPEM, the handshake "
     "encoding through Recombine(version, bytes, certificate key, certificate curve)",
     "'decoding arbitrary bytes never panics' is not decided (DESIGN section 5); a panic met on the way is still reported (key panic:...)",
-    "v2 certificates larger than MaxCertificateSize (65536) are inside the quantifier ('any groups'): the lattice contains a 70000-byte group",
+    "v2 certificates larger than MaxCertificateSize (65536) are inside the quantifier ('any groups'): the lattice contains a 70000-byte group "
+    "and one vector per exact encoded length around the limit; for those P-256 vectors Sign is exercised as SignWith + the same lambda "
+    "retried until the low-S signature is 71 bytes long (Sign itself is that lambda once), so that every length is hit exactly; "
+    "the size limit is read as a rule about the standard encoding: at the boundary Decoded => Shape is checked on the hand-made standard "
+    "encoding only (the handshake form of the same content is ~36/70 bytes shorter and stays readable just above the limit)",
 ]
 
 
@@ -63,7 +69,7 @@ def run(ctx):
         raise MachineryError('Shape of CertCodec.tla is out of date: the real signer and the real decoders agree with each other but '
                              'not with the specification on %d input(s), e.g. %s' % (len(drift), json.dumps(drift[0])[:1500]))
     ctx.require_actions('sign:ok', 'sign:refused', 'hand:decoded', 'hand:refused', 'hand:unencodable', 'V:shape:ok',
-                        'V:shape:nets:dup', 'V:shape:nets:4in6', 'V:shape:name:long', 'V:shape:group:empty', 'T:ok')
+                        'V:size-boundary:signed', 'V:size-boundary:refused', 'V:shape:nets:dup', 'V:shape:nets:4in6', 'V:shape:name:long', 'V:shape:group:empty', 'T:ok')
 
 
 META = {
